@@ -149,6 +149,10 @@ func vC04Queries(e *vEnv, docs []vDoc, vocab []string) []vBase {
 	for k := 0; k < nd; k++ {
 		di := perm[k%len(perm)]
 		qs = append(qs, vMakeBase(r, 0, docs, di, vocab), vMakeBase(r, 1, docs, di, vocab))
+		if k%4 == 0 {
+			b := vMakeBase(r, 1, docs, di, vocab)
+			qs = append(qs, vBase{"spiced:" + b.name, vSpice(r, b.text, 15)})
+		}
 	}
 	for k := 0; k < e.pick(30, 200); k++ {
 		qs = append(qs, vMakeBase(r, 3, docs, r.Intn(len(docs)), vocab))
